@@ -1,5 +1,5 @@
-//@ fail: E0133
-//@ what: an unsafe function called in the argument of unsize! without an unsafe block (the macro must not evaluate its argument in an unsafe context)
+//@ fail: ~lifetime may not live long enough|E0521|E0597|E0716|E0515|~borrowed data escapes
+//@ what: a root field of arena A exchanged with one of arena B
 #![allow(unused)]
 use gc_arena::{Arena, Collect, Gc, GcWeak, Mutation, Finalization, Rootable, DynamicRootSet, DynamicRoot, Static};
 use gc_arena::lock::{Lock, RefLock, OnceLock};
@@ -25,13 +25,11 @@ fn mk() -> A {
     })
 }
 
-use gc_arena::unsize;
 fn main() {
-    gc_arena::arena::rootless_mutate(|mc| {
-        let g = Gc::new(mc, 5u32);
-        #[cfg(bad)]
-        let _d = unsize!(Gc::cast::<i32>(g) => dyn std::fmt::Display);
-        #[cfg(not(bad))]
-        let _d = unsize!(unsafe { Gc::cast::<i32>(g) } => dyn std::fmt::Display);
-    });
+    let mut a = mk();
+    let mut b = mk();
+    #[cfg(bad)]
+    a.mutate_root(|_mca, ra| b.mutate_root(|_mcb, rb| std::mem::swap(&mut ra.p, &mut rb.p)));
+    #[cfg(not(bad))]
+    a.mutate_root(|_mca, ra| b.mutate_root(|_mcb, rb| { let _n = *ra.p; let mut q = rb.p; std::mem::swap(&mut q, &mut rb.p); }));
 }
